@@ -17,10 +17,12 @@ ancestor closure, the history with every remembered id that names a state (unkno
 dropped by the code, so they are dropped here), each remembered list put back into the (depth, id)
 order `_record_history` keeps it in (commit 546b3d4; `restoreUnsorted` is `from_snapshot` before that
 fix: the lists stay in the id order of the snapshot), an empty queue and fresh counters.  Errors:
-`invalidConfig` (the text does not decode to a JSON object: `InvalidConfigError`), `stateNotFound id`
-(`StateNotFoundError`), and `shape key` for a missing `status`/`context` key or a wrongly typed value —
-inputs on which the code raises a raw `KeyError`/`TypeError`/`AttributeError` or duck-types its way to
-acceptance (finding F43); the model refuses them.
+`invalidConfig` (the text does not decode to a JSON object: `InvalidConfigError`), `shape key`
+(`_validate_snapshot_shape`, run before anything is rebuilt: the first key of `status`, `context`,
+`configuration`, `state_ids`, `history`, `actors`, `system` whose value has the wrong JSON type —
+`InvalidConfigError` naming that key; the repair of finding F43) and `stateNotFound id`
+(`StateNotFoundError`, only for a well-shaped snapshot).  The engine model has no child actors, so a
+well-shaped `actors` / `system` value is accepted and otherwise ignored.
 -/
 namespace XSM
 
@@ -160,27 +162,100 @@ def restoreHistJ (m : Machine) (ord : List Path → List Path) (j : J) : Except 
   | some (.obj kvs) => restoreHist m ord kvs
   | some _ => .error (.shape "history")
 
-/-- `from_snapshot` on the decoded JSON value, with the order `ord` given to each remembered list -/
+-- `_validate_snapshot_shape` ------------------------------------------------------------------------
+
+/-- Python truthiness of a decoded JSON value (`not snapshot.get("configuration")`) -/
+def jTruthy : J → Bool
+  | .null => false
+  | .bool b => b
+  | .num n => n != 0
+  | .str s => s != ""
+  | .arr xs => !xs.isEmpty
+  | .obj kvs => !kvs.isEmpty
+
+def isStr : J → Bool
+  | .str _ => true
+  | _ => false
+def isObj : J → Bool
+  | .obj _ => true
+  | _ => false
+/-- `ids(value)`: a list of strings -/
+def isIds : J → Bool
+  | .arr xs => (strList xs).isSome
+  | _ => false
+/-- `mapping(value, item)`: an object every value of which passes `item` -/
+def isMapOf (item : J → Bool) : J → Bool
+  | .obj kvs => kvs.all (fun kv => item kv.2)
+  | _ => false
+/-- `actor(record)` — what `from_snapshot` reads of a persisted actor record: it is an object, `src` is
+    absent, `null` or a string (the `services` key), `snapshot` is an object (`machine_id` is not read) -/
+def isActorRec (r : J) : Bool :=
+  match r with
+  | .obj _ =>
+    (match r.get? "src" with
+     | none => true
+     | some .null => true
+     | some (.str _) => true
+     | some _ => false) &&
+    (match r.get? "snapshot" with
+     | some (.obj _) => true
+     | _ => false)
+  | _ => false
+
+/-- one row of the table: `value = snapshot.get(key)` passes `check`, or it is `None` (key absent, or
+    `null`: no check of the table accepts `None`) and the key is not required -/
+def shapeRowOk (j : J) (key : String) (required : Bool) (check : J → Bool) : Bool :=
+  match j.get? key with
+  | none => !required
+  | some .null => !required
+  | some v => check v
+
+/-- `state_ids` is required when `not snapshot.get("configuration")` -/
+def stateIdsRequired (j : J) : Bool :=
+  match j.get? "configuration" with
+  | none => true
+  | some v => !jTruthy v
+
+/-- `_validate_snapshot_shape`: the first offending key, in the order of the table -/
+def shapeErr (j : J) : Option RErr :=
+  if !shapeRowOk j "status" true isStr then some (.shape "status")
+  else if !shapeRowOk j "context" true isObj then some (.shape "context")
+  else if !shapeRowOk j "configuration" false isIds then some (.shape "configuration")
+  else if !shapeRowOk j "state_ids" (stateIdsRequired j) isIds then some (.shape "state_ids")
+  else if !shapeRowOk j "history" false (isMapOf isIds) then some (.shape "history")
+  else if !shapeRowOk j "actors" false (isMapOf isActorRec) then some (.shape "actors")
+  else if !shapeRowOk j "system" false (isMapOf isStr) then some (.shape "system")
+  else none
+
+/-- the body of `from_snapshot` after the validation (on a validated snapshot none of its `shape`
+    branches is taken: `restoreCore_no_shape`) -/
+def restoreCore (m : Machine) (ord : List Path → List Path) (j : J) : Except RErr St :=
+  match j.get? "context" with
+  | some (.obj ckvs) =>
+    (match j.get? "status" with
+     | some (.str st) =>
+       (match restoreIdsJ j with
+        | .error e => .error e
+        | .ok ids =>
+          (match restoreIds m ids with
+           | .error e => .error e
+           | .ok ps =>
+             (match restoreHistJ m ord j with
+              | .error e => .error e
+              | .ok h =>
+                .ok { cfg := closeUp ps, hist := h, queue := [], status := st, trace := [], err := none,
+                      ctx := restoreCtx ckvs, raiseDepth := 0, errors := 0 })))
+     | _ => .error (.shape "status"))
+  | _ => .error (.shape "context")
+
+/-- `from_snapshot` on the decoded JSON value, with the order `ord` given to each remembered list:
+    top-level type, then the shape of every key, then the rebuild -/
 def restoreWith (m : Machine) (ord : List Path → List Path) (j : J) : Except RErr St :=
   match j with
   | .obj _ =>
-    (match j.get? "context" with
-     | some (.obj ckvs) =>
-       (match j.get? "status" with
-        | some (.str st) =>
-          (match restoreIdsJ j with
-           | .error e => .error e
-           | .ok ids =>
-             (match restoreIds m ids with
-              | .error e => .error e
-              | .ok ps =>
-                (match restoreHistJ m ord j with
-                 | .error e => .error e
-                 | .ok h =>
-                   .ok { cfg := closeUp ps, hist := h, queue := [], status := st, trace := [], err := none,
-                         ctx := restoreCtx ckvs, raiseDepth := 0, errors := 0 })))
-        | _ => .error (.shape "status"))
-     | _ => .error (.shape "context"))
+    (match shapeErr j with
+     | some e => .error e
+     | none => restoreCore m ord j)
   | _ => .error (.invalidConfig "Snapshot must decode to a JSON object")
 
 /-- `from_snapshot` (current code): remembered lists in (depth, id) order -/
